@@ -100,7 +100,7 @@ pub fn main(args: &crate::Args) {
     // pinned shapes first: lanes dividing / not dividing the op count, a single op in a wide row
     let pinned: [(usize, usize, usize); 8] = [(3, 2, 1), (5, 4, 1), (1, 2, 1), (4, 2, 1), (7, 3, 1), (3, 2, 16), (2, 4, 8), (6, 3, 1)];
     for k in 0..ncases {
-        let (n, lanes, minh) = if k < pinned.len() { pinned[k] } else { (1 + r.usize(9), 1 + r.usize(5), [1usize, 1, 8, 16][r.usize(4)]) };
+        let (n, lanes, minh) = if k < pinned.len() { pinned[k] } else { (1 + r.usize(9), 1 + r.usize(5), [1usize, 1, 8, 16, 3, 24][r.usize(6)]) };
         let vals: Vec<Vec<u64>> = (0..n).map(|_| (0..D).map(|_| 1 + r.below(2_000_000_000)).collect()).collect();
         // (1) the real main trace
         let rows: Vec<RecomposeCircuitRow<F>> = vals
